@@ -235,8 +235,11 @@ func (p *Processor) ChargingDataCreate(
 		}
 	}
 
-	// CDR Transfer
+	// CDR Transfer (under the subscriber lock, as in update: an update or release of the subscriber rewrites the
+	// file the transfer reads)
+	ue.CULock.Lock()
 	err = cgf.SendCDR(chargingData.SubscriberIdentifier)
+	ue.CULock.Unlock()
 	if err != nil {
 		logger.ChargingdataPostLog.Errorf("Charging gateway fail to send CDR to billing domain %v", err)
 	}
